@@ -165,6 +165,8 @@ static int b_sum, b_kern, b_vol, b_dmx, b_vt, b_k2, b_pk, b_vr, b_vr_odd;
 static long st_vr_cases, st_freed, st_free_checked, st_reuse, st_reuse_filter, st_reuse_ramp, st_reuse_queued, st_reuse_rev,
 	st_reuse_paula;
 #define C14_MAXV 1024
+static long st_mapped_checked, st_bg_voices_seen, st_maxused, st_maxbg, st_bg_beyond, st_bg_cases;
+static int b_bg;
 static int g_prev_chn[C14_MAXV], g_owner_root[C14_MAXV], g_slot_had[C14_MAXV], g_have_prev;
 static long st_pk_cases;
 static long st_k2_cases, st_k2_skipped, st_maxvol, st_maxlevel;
@@ -610,6 +612,7 @@ static void reset_slot_tracking(void)
 	g_have_prev = 0;
 	st_vr_cases = st_freed = st_free_checked = st_reuse = st_reuse_filter = st_reuse_ramp = st_reuse_queued = st_reuse_rev = 0;
 	st_reuse_paula = 0;
+	st_mapped_checked = st_bg_voices_seen = st_maxused = st_maxbg = st_bg_beyond = st_bg_cases = 0;
 }
 
 static void tie_tick(struct context_data *ctx)
@@ -652,6 +655,41 @@ static void tie_tick(struct context_data *ctx)
 	for (i = 0; i < n; i++) {
 		if (full[i])
 			st_nonzero_words++;
+	}
+
+	/* every voice in use is driven by exactly the virtual channel it names: virt_channel[vi->chn].map == voice.
+	 * An orphaned voice keeps sounding with nobody updating (or muting) it. */
+	{
+		const struct snap *sn[2] = { &s0, &s1 };
+		int w;
+		for (w = 0; w < 2; w++) {
+			for (v = 0; v < sn[w]->nv; v++) {
+				int c = sn[w]->voices[v].chn;
+				if (c < 0)
+					continue;
+				st_mapped_checked++;
+				if (c >= sn[w]->nch || sn[w]->vch[c].map != v) {
+					tie_fail(ctx, "virt:orphan_voice", "voice=%ld names virtual channel %ld whose map is %ld", v, c,
+						 c < sn[w]->nch ? sn[w]->vch[c].map : -99);
+					w = 2;
+					break;
+				}
+				if (c >= p->virt.num_tracks)
+					st_bg_voices_seen++;
+			}
+		}
+		if (s0.used > st_maxused)
+			st_maxused = s0.used;
+		{
+			int bg = 0;
+			for (v = 0; v < s0.nv; v++)
+				if (s0.voices[v].chn >= p->virt.num_tracks)
+					bg++;
+			if (bg > st_maxbg)
+				st_maxbg = bg;
+			if (bg > s0.nv - p->virt.num_tracks && s0.used < s0.nv)
+				st_bg_beyond++;
+		}
 	}
 
 	/* voice slots: a slot whose owner (root channel) changed since it was last seen in use = reuse by another
@@ -893,6 +931,43 @@ static void tie_tick(struct context_data *ctx)
 	g_ctx = NULL;
 }
 
+/* libxmp_virt_setpatch (src/virtual.c) is reached through -Wl,--wrap: when the call moves the channel's old voice to
+ * a background (NNA) virtual channel, the channel it chose is compared with the model's search over the map of the
+ * background channels as it was before the call (driver command `bg`, Xmp.MixKernel.bgSearch). */
+int __real_libxmp_virt_setpatch(struct context_data *, int, int, int, int, int, int, int, int);
+int __wrap_libxmp_virt_setpatch(struct context_data *ctx, int chn, int ins, int smp, int note, int key, int nna, int dct, int dca)
+{
+	struct player_data *p = &ctx->p;
+	int nt = p->virt.num_tracks, nc = p->virt.virt_channels, oldvoc = -1, i, r;
+	int *maps = NULL;
+
+	/* (a full voice table makes alloc_voice evict a background voice first, which frees a channel: not a case) */
+	if (g_tie && !g_in_solo && b_bg > 0 && chn >= 0 && chn < nc && nc > nt && nc - nt <= 4096 &&
+	    p->virt.virt_used < (int)p->virt.maxvoc) {
+		oldvoc = p->virt.virt_channel[chn].map;
+		if (oldvoc >= 0) {
+			maps = (int *)malloc((size_t)(nc - nt) * sizeof(int));
+			for (i = nt; i < nc; i++)
+				maps[i - nt] = p->virt.virt_channel[i].map;
+		}
+	}
+	r = __real_libxmp_virt_setpatch(ctx, chn, ins, smp, note, key, nna, dct, dca);
+	if (maps != NULL) {
+		/* the duplicate check may have freed background channels before the search: only calls without it are cases */
+		if (!dct && oldvoc < (int)p->virt.maxvoc && p->virt.voice_array[oldvoc].chn >= nt &&
+		    p->virt.virt_channel[p->virt.voice_array[oldvoc].chn].map == oldvoc) {
+			printf("C bg %d", nc - nt);
+			for (i = 0; i < nc - nt; i++)
+				printf(" %d", maps[i]);
+			printf("\nE %d\n", p->virt.voice_array[oldvoc].chn - nt);
+			b_bg--;
+			st_bg_cases++;
+		}
+		free(maps);
+	}
+	return r;
+}
+
 void libxmp_mixer_softmixer(struct context_data *ctx)
 {
 	if (g_tie)
@@ -907,6 +982,8 @@ void libxmp_mixer_softmixer(struct context_data *ctx)
 
 struct cfg {
 	int rate, fmt, interp, amp, mix, master, smixvol, dsp, a500, startpos;
+	int voices;		/* XMP_PLAYER_VOICES before xmp_start_player (0 = library default): small voice tables, few background
+				 * (NNA) virtual channels */
 	int jump_frame, jump_pos;	/* xmp_set_position(jump_pos) before frame jump_frame (0 = none): libxmp_virt_reset frees every
 					 * voice, the channels then take the slots in a new order */
 	int mute[XMP_MAX_CHANNELS];
@@ -935,6 +1012,8 @@ static xmp_context open_ctx(const char *path, const struct cfg *c, int apply_mut
 		xmp_free_context(x);
 		return NULL;
 	}
+	if (c->voices > 0)
+		xmp_set_player(x, XMP_PLAYER_VOICES, c->voices);
 	if (xmp_start_player(x, c->rate, c->fmt) < 0) {
 		xmp_release_module(x);
 		xmp_free_context(x);
@@ -982,7 +1061,11 @@ static void random_cfg(struct cfg *c)
 	c->a500 = vrng_chance(25);
 	for (i = 0; i < XMP_MAX_CHANNELS; i++)
 		c->mute[i] = vrng_chance(10);
-	/* optional overrides (part of the replay record): C14_INTERP, C14_RATE (and C14_A500, C14_POS below) */
+	/* small voice tables: the number of background (NNA) virtual channels equals the number of voices */
+	c->voices = vrng_chance(30) ? (vrng_chance(50) ? vrng_range(4, 12) : vrng_range(12, 40)) : 0;
+	if (getenv("C14_VOICES") != NULL)
+		c->voices = atoi(getenv("C14_VOICES"));
+	/* optional overrides (part of the replay record): C14_INTERP, C14_RATE, C14_VOICES (and C14_A500, C14_POS below) */
 	if (getenv("C14_INTERP") != NULL)
 		c->interp = atoi(getenv("C14_INTERP"));
 	if (getenv("C14_RATE") != NULL)
@@ -1041,7 +1124,7 @@ static int mode_tie(uint64_t seed, int nframes, const char *path, int lowrate)
 		return 0;
 	}
 	g_modname = base_name(path);
-	b_sum = 6; b_kern = 10; b_vol = 40; b_dmx = 16; b_vt = 8; b_k2 = 14; b_pk = 10; b_vr = 6; b_vr_odd = 4;
+	b_sum = 6; b_kern = 10; b_vol = 40; b_dmx = 16; b_vt = 8; b_k2 = 14; b_pk = 10; b_vr = 6; b_vr_odd = 4; b_bg = 12;
 	p_kern = 4;
 	st_ticks = st_voice_solos = st_kernel_calls = st_fail = st_active_voice_ticks = st_multi_voice_ticks = 0;
 	st_kern_cases = st_vol_cases = st_sum_cases = st_vt_cases = st_vt_skipped = st_ac_kernel_calls = 0;
@@ -1068,11 +1151,14 @@ static int mode_tie(uint64_t seed, int nframes, const char *path, int lowrate)
 	printf("tiestat %s ticks=%ld solos=%ld multi=%ld kernel_calls=%ld ac_calls=%ld filter_calls=%ld paula_calls=%ld "
 	       "one_frame_calls=%ld nonzero_words=%ld fails=%ld sum=%ld vol=%ld kern=%ld vt=%ld vt_skipped=%ld k2=%ld k2_skipped=%ld "
 	       "maxvol=%ld maxlevel=%ld maxactive=%ld wraps=%ld maxacc=%lld pk=%ld vr=%ld freed=%ld free_checked=%ld reuse=%ld "
-	       "reuse_filter=%ld reuse_ramp=%ld reuse_queued=%ld reuse_rev=%ld reuse_paula=%ld\n", base_name(path), st_ticks,
+	       "reuse_filter=%ld reuse_ramp=%ld reuse_queued=%ld reuse_rev=%ld reuse_paula=%ld mapped_checked=%ld bg_voices=%ld maxused=%ld "
+	       "maxvoc=%d numtracks=%d maxbg=%ld bg_beyond=%ld bg=%ld voices=%d\n", base_name(path), st_ticks,
 	       st_voice_solos, st_multi_voice_ticks, st_kernel_calls, st_ac_kernel_calls, st_filter_calls, st_paula_calls,
 	       st_one_frame_calls, st_nonzero_words, st_fail, st_sum_cases, st_vol_cases, st_kern_cases, st_vt_cases, st_vt_skipped,
 	       st_k2_cases, st_k2_skipped, st_maxvol, st_maxlevel, st_maxactive, st_wraps, st_maxacc, st_pk_cases, st_vr_cases, st_freed,
-	       st_free_checked, st_reuse, st_reuse_filter, st_reuse_ramp, st_reuse_queued, st_reuse_rev, st_reuse_paula);
+	       st_free_checked, st_reuse, st_reuse_filter, st_reuse_ramp, st_reuse_queued, st_reuse_rev, st_reuse_paula, st_mapped_checked,
+	       st_bg_voices_seen, st_maxused, ((struct context_data *)x)->p.virt.maxvoc, ((struct context_data *)x)->p.virt.num_tracks,
+	       st_maxbg, st_bg_beyond, st_bg_cases, c.voices);
 	close_ctx(x);
 	return 0;
 }
@@ -1100,7 +1186,7 @@ static int mode_overdrive(uint64_t seed, int nframes, const char *path)
 	if (getenv("C14_MASTER") != NULL)
 		xmp_set_player(x, XMP_PLAYER_VOLUME, atoi(getenv("C14_MASTER")));
 	g_modname = base_name(path);
-	b_sum = b_kern = b_vol = b_dmx = b_vt = b_k2 = b_pk = b_vr = b_vr_odd = 0;
+	b_sum = b_kern = b_vol = b_dmx = b_vt = b_k2 = b_pk = b_vr = b_vr_odd = b_bg = 0;
 	reset_slot_tracking();
 	st_ticks = st_fail = st_wraps = st_maxvol = st_maxlevel = st_maxactive = 0;
 	st_maxacc = 0;
